@@ -117,7 +117,18 @@ def _r10(ctx, pkg):
     if len(st) != 1:
         ctx.unrec("R10", "KROME:@format: column list", (KF, fn.lineno if fn else 0), f"expected one store into reacformat in preprocessing, found {len(st)}")
     else:
-        src = ast.unparse(st[0].value)
+        val = st[0].value
+        for _ in range(3):
+            # a local bound once in the method (`columns = line.replace(..)` ; `cls.reacformat = columns`) is the expression it names
+            if not isinstance(val, ast.Name):
+                break
+            binds = [a for a in ast.walk(fn) if isinstance(a, (ast.Assign, ast.AnnAssign, ast.AugAssign, ast.For, ast.NamedExpr, ast.With)) and any(
+                isinstance(x, ast.Name) and x.id == val.id and isinstance(x.ctx, ast.Store) for x in ast.walk(a))]
+            if len(binds) != 1 or not isinstance(binds[0], ast.Assign) or len(binds[0].targets) != 1 or not isinstance(binds[0].targets[0], ast.Name) \
+                    or any(a.arg == val.id for a in fn.args.args):
+                break
+            val = binds[0].value
+        src = ast.unparse(val)
         ok = re.fullmatch(r"\w+\.replace\('@format:', ''(, 1)?\)(\.strip\(\))?|\w+\[len\('@format:'\):\](\.strip\(\))?|\w+\[8:\](\.strip\(\))?|\w+\.removeprefix\('@format:'\)(\.strip\(\))?", src) is not None
         wrong = re.search(r"\.[lr]?strip\('[^']*\w\w[^']*'\)|\[\s*(?!8:)\d+:\]", src) is not None     # a word used as a character set / another offset
         if ok or wrong:
@@ -1189,8 +1200,10 @@ def _kida(ctx, pkg):
     if not fills:
         ctx.unrec("R4", "KIDA:writer-widths", (R, w.lineno), "cannot find the KIDA writer's padded name lists (_fill_list([f'{x:<11}' for x in ..], n, ..))")
     else:
-        ctx.check(sorted(n_ for _, n_ in fills) == [3, 5], "R4", "KIDA:writer-widths", (R, w.lineno),
-                  "the KIDA writer pads 3 reactant and 5 product names to 11 columns each", found=str(sorted(n_ for _, n_ in fills)))
+        # (the same padded list may be met twice -- once where a helper builds it, once where the writer with its helpers put back
+        # does: what is compared is the set of counts the 11-column lists are filled to)
+        ctx.check(sorted({n_ for _, n_ in fills}) == [3, 5], "R4", "KIDA:writer-widths", (R, w.lineno),
+                  "the KIDA writer pads 3 reactant and 5 product names to 11 columns each", found=str(sorted({n_ for _, n_ in fills})))
     if len(cols) != 2:
         return
     end = cols["products"][0][1]           # the numeric tail is the text after the product block
